@@ -1472,4 +1472,59 @@ theorem sockReadLoop_all : ∀ (f : Nat) (sched : List Nat) (inc out : Bytes) (s
       conv => rhs; rw [this, List.take_add]
 
 
+
+/-! ### lemmas used by the property theorems -/
+
+theorem writeFileLoop_plain (blk rblk : Nat) (hb : 0 < blk) (hr : 0 < rblk) :
+    ∀ (f : Nat) (b : Bytes), b.length ≤ f → writeFileLoop false blk rblk f b = b := by
+  intro f
+  induction f with
+  | zero => intro b h; have : b = [] := List.eq_nil_of_length_eq_zero (by omega); subst this; rfl
+  | succ f ih =>
+    intro b h
+    unfold writeFileLoop
+    by_cases he : b.isEmpty = true
+    · simp only [he, if_true]; exact (List.isEmpty_iff.mp he).symm
+    · have hf : b.isEmpty = false := by simpa using he
+      have hne : b ≠ [] := by intro h0; subst h0; simp at he
+      have hl : 0 < b.length := List.length_pos_iff.mpr hne
+      simp only [hf, Bool.false_eq_true, if_false]
+      rw [writeBody_plain blk hb, ih _ (by rw [List.length_drop]; omega), List.take_append_drop]
+
+theorem norm_lookup : ∀ (hs : List (Bytes × Bytes)) (d : Dic) (nv : Bytes × Bytes), (∀ x ∈ hs, x.2 ≠ []) → nv ∈ hs →
+    (∀ other ∈ hs, capitalized other.1 = capitalized nv.1 → other = nv) →
+    dicGet (hs.foldl (fun d x => setHeader d x.1 x.2) d) (capitalized nv.1) = some nv.2 := by
+  intro hs
+  induction hs with
+  | nil => intro d nv _ h; exact absurd h (by simp)
+  | cons x t ih =>
+    intro d nv hne hmem huniq
+    simp only [List.foldl_cons]
+    by_cases hin : nv ∈ t
+    · exact ih _ nv (fun y hy => hne y (List.mem_cons_of_mem _ hy)) hin (fun o ho => huniq o (List.mem_cons_of_mem _ ho))
+    · have hx : nv = x := by
+        rcases List.mem_cons.mp hmem with h | h
+        · exact h
+        · exact absurd h hin
+      subst hx
+      rw [foldl_setHeader_preserve (capitalized nv.1) t _ (fun y hy => ⟨hne y (List.mem_cons_of_mem _ hy), fun hc => by
+        have := huniq y (List.mem_cons_of_mem _ hy) hc
+        subst this; exact hin hy⟩)]
+      rw [setHeader_of_value (hne nv List.mem_cons_self)]
+      exact dicGet_dicSet_same _ _ _
+
+theorem codeMsg_ok (code : Nat) : (∀ c ∈ codeMsg code, c ≠ 10) ∧ (codeMsg code).length ≤ 15 := by
+  unfold codeMsg
+  repeat' split
+  all_goals exact ⟨by decide, by decide⟩
+
+theorem statusLine_eq (proto : Bytes) (code : Nat) : statusLine proto code = proto ++ [32] ++ utoa code ++ [32] ++ codeMsg code := rfl
+
+/-- the two protocol texts a response can start with -/
+def IsProto (p : Bytes) : Prop := p = sHttp11 ∨ p = sHttp10
+
+theorem proto_ok {p : Bytes} (h : IsProto p) : p ≠ [] ∧ (∀ c ∈ p, isSpace c = false) ∧ p.length = 8 := by
+  rcases h with h | h <;> subst h <;> exact ⟨by decide, by decide, by decide⟩
+
+
 end AslProofs.HttpFrame
